@@ -20,7 +20,9 @@ use cairo_lang_diagnostics::ToOption;
 use cairo_lang_filesystem::db::{
     CrateConfiguration, CrateSettings, DependencySettings, Edition, ExperimentalFeaturesConfig, FilesGroup, files_group_input, set_crate_configs_input,
 };
-use cairo_lang_filesystem::ids::{BlobLongId, CrateId, CrateInput, Directory, SmolStrId};
+use cairo_lang_filesystem::cfg::{Cfg, CfgSet};
+use cairo_lang_filesystem::ids::{BlobLongId, CrateId, CrateInput, CrateLongId, Directory, SmolStrId};
+use cairo_lang_utils::Intern;
 use cairo_lang_filesystem::set_crate_config;
 use cairo_lang_lowering::cache::generate_crate_cache;
 use cairo_lang_lowering::optimizations::config::Optimizations;
@@ -37,8 +39,6 @@ use vcommon::Rng;
 
 
 const LIB_NAME: &str = "c20lib";
-const LIB_DIR: &str = "/verif/corpus/C20/lib/src";
-
 fn configs() -> Vec<(&'static str, Optimizations)> {
     vec![
         ("opt-default-inlining", Optimizations::enabled_with_default_movable_functions(InliningStrategy::Default)),
@@ -59,40 +59,98 @@ struct Prog {
     flavor: u8,
 }
 
-fn lib_settings(deps: bool, flavor: u8) -> CrateSettings {
-    let mut dependencies = BTreeMap::new();
-    if deps {
-        dependencies.insert(LIB_NAME.to_string(), DependencySettings { discriminator: None });
-    }
-    let edition = if flavor == 0 { Edition::V2024_07 } else { Edition::V2023_10 };
-    let experimental_features = ExperimentalFeaturesConfig {
-        negative_impls: flavor == 2,
-        associated_item_constraints: flavor == 2,
+/// The non-core crates every database contains, besides the programs. The graph is what a project
+/// file / Scarb produces: every crate is registered with a discriminator, dependencies name the
+/// discriminator, two crates share the name `c20util`.
+///   program -> c20lib (cached) -> c20util [v1]          program -> c20util [v2]
+const UTIL_NAME: &str = "c20util";
+const UTIL1_DISC: &str = "c20util 1.0.0 (path+file:///corpus/C20/util1)";
+const UTIL2_DISC: &str = "c20util 2.0.0 (path+file:///corpus/C20/util2)";
+const LIB_DISC: &str = "c20lib 0.3.0 (path+file:///corpus/C20/lib)";
+
+fn corpus_dir(sub: &str) -> PathBuf {
+    PathBuf::from(format!("{}/corpus/C20/{sub}", h13::verif_root()))
+}
+
+fn dep(name: &str, disc: &str) -> (String, DependencySettings) {
+    (name.to_string(), DependencySettings { discriminator: Some(disc.to_string()) })
+}
+
+fn experimental(all: bool) -> ExperimentalFeaturesConfig {
+    ExperimentalFeaturesConfig {
+        negative_impls: all,
+        associated_item_constraints: all,
         coupons: false,
-        user_defined_inline_macros: flavor == 2,
+        user_defined_inline_macros: all,
         repr_ptrs: false,
-    };
-    CrateSettings { edition, dependencies, experimental_features, ..Default::default() }
+    }
 }
 
-fn add_crate(db: &mut RootDatabase, name: &str, dir: &Path, deps: bool, flavor: u8) -> CrateInput {
+fn util_settings(v2: bool) -> CrateSettings {
+    CrateSettings {
+        edition: if v2 { Edition::V2024_07 } else { Edition::V2023_10 },
+        version: semver::Version::parse(if v2 { "2.0.0" } else { "1.0.0" }).ok(),
+        ..Default::default()
+    }
+}
+
+fn c20lib_settings() -> CrateSettings {
+    CrateSettings {
+        edition: Edition::V2024_07,
+        version: semver::Version::parse("0.3.0").ok(),
+        cfg_set: Some(CfgSet::from_iter([Cfg::kv("feature", "fast"), Cfg::kv("target", "c20")])),
+        dependencies: BTreeMap::from([dep(UTIL_NAME, UTIL1_DISC)]),
+        experimental_features: experimental(true),
+        ..Default::default()
+    }
+}
+
+fn prog_settings(flavor: u8) -> CrateSettings {
+    match flavor {
+        0 => CrateSettings {
+            edition: Edition::V2024_07,
+            dependencies: BTreeMap::from([dep(LIB_NAME, LIB_DISC), dep(UTIL_NAME, UTIL2_DISC)]),
+            experimental_features: experimental(true),
+            ..Default::default()
+        },
+        // a dependent on an edition that does not enforce visibility
+        3 => CrateSettings {
+            edition: Edition::V2023_01,
+            dependencies: BTreeMap::from([dep(LIB_NAME, LIB_DISC), dep(UTIL_NAME, UTIL2_DISC)]),
+            experimental_features: experimental(true),
+            ..Default::default()
+        },
+        _ => CrateSettings { edition: Edition::V2023_10, experimental_features: experimental(flavor == 2), ..Default::default() },
+    }
+}
+
+fn add_crate(db: &mut RootDatabase, name: &str, disc: Option<&str>, dir: &Path, settings: CrateSettings) -> CrateInput {
     let dbm: &mut dyn Database = db;
-    let crate_id = CrateId::plain(dbm, SmolStrId::from(dbm, name));
-    set_crate_config!(
-        dbm,
-        crate_id,
-        Some(CrateConfiguration { root: Directory::Real(dir.to_path_buf()), settings: lib_settings(deps, flavor), cache_file: None })
-    );
-    let crate_id = CrateId::plain(dbm, SmolStrId::from(dbm, name));
-    crate_id.long(dbm).clone().into_crate_input(dbm)
+    let long = CrateLongId::Real { name: SmolStrId::from(dbm, name), discriminator: disc.map(|s| s.to_string()) };
+    let crate_id = long.clone().intern(dbm);
+    set_crate_config!(dbm, crate_id, Some(CrateConfiguration { root: Directory::Real(dir.to_path_buf()), settings, cache_file: None }));
+    CrateInput::Real { name: name.to_string(), discriminator: disc.map(|s| s.to_string()) }
 }
 
-/// A database with corelib, the library crate and all programs from source; then, for the crates
+fn lib_input() -> CrateInput {
+    CrateInput::Real { name: LIB_NAME.to_string(), discriminator: Some(LIB_DISC.to_string()) }
+}
+fn util_input(v2: bool) -> CrateInput {
+    CrateInput::Real { name: UTIL_NAME.to_string(), discriminator: Some(if v2 { UTIL2_DISC } else { UTIL1_DISC }.to_string()) }
+}
+
+/// A database with corelib, the library crates and all programs from source; then, for the crates
 /// named in `cached`, the `cache_file` is set (the only difference between the two databases).
 fn open_db(opt: &Optimizations, progs: &[Prog], cached: &[(CrateInput, Vec<u8>)]) -> (RootDatabase, CrateInput, Vec<CrateInput>) {
+    open_db_with_lib(opt, progs, cached, &corpus_dir("lib/src"))
+}
+
+fn open_db_with_lib(opt: &Optimizations, progs: &[Prog], cached: &[(CrateInput, Vec<u8>)], lib_dir: &Path) -> (RootDatabase, CrateInput, Vec<CrateInput>) {
     let mut db = build_db(Some(opt.clone()));
-    let lib = add_crate(&mut db, LIB_NAME, Path::new(LIB_DIR), false, 0);
-    let inputs: Vec<CrateInput> = progs.iter().map(|p| add_crate(&mut db, &p.name, &p.dir, p.flavor == 0, p.flavor)).collect();
+    add_crate(&mut db, UTIL_NAME, Some(UTIL1_DISC), &corpus_dir("util1/src"), util_settings(false));
+    add_crate(&mut db, UTIL_NAME, Some(UTIL2_DISC), &corpus_dir("util2/src"), util_settings(true));
+    let lib = add_crate(&mut db, LIB_NAME, Some(LIB_DISC), lib_dir, c20lib_settings());
+    let inputs: Vec<CrateInput> = progs.iter().map(|p| add_crate(&mut db, &p.name, None, &p.dir, prog_settings(p.flavor))).collect();
     if !cached.is_empty() {
         let mut crate_configs = files_group_input(&db).crate_configs(&db).clone().unwrap();
         for (c, blob) in cached {
@@ -196,7 +254,7 @@ fn snippet(rng: &mut Rng) -> (String, &'static str) {
     let k = |rng: &mut Rng, n: u64| rng.below(n);
     let (a, b, c) = (k(rng, 100), k(rng, 100), k(rng, 9) + 1);
     let flag = if rng.bool() { "true" } else { "false" };
-    match rng.below(46) {
+    match rng.below(72) {
         0 => (format!("c20lib::pick::<u8>({a}, {b}, {flag}).into()"), "generic:pick<u8>"),
         1 => (format!("c20lib::pick::<u128>({a}, {b}, {flag}).into()"), "generic:pick<u128>"),
         2 => (format!("c20lib::pick::<felt252>({a}, {b}, {flag})"), "generic:pick<felt252>"),
@@ -242,7 +300,39 @@ fn snippet(rng: &mut Rng) -> (String, &'static str) {
         42 => (format!("{{ let mut d: Felt252Dict<u32> = Default::default(); d.insert({a}, {b}); d.get({a}).into() }}"), "core:dict"),
         43 => (format!("{{ let s: ByteArray = \"abc{a}\"; s.len().into() }}"), "core:bytearray"),
         44 => (format!("{{ let x: Option<u8> = {}_u64.try_into(); match x {{ Option::Some(v) => v.into(), Option::None => {b} }} }}", a * 5), "core:try_into"),
-        _ => (format!("{{ let x: u8 = {a}; let y: u8 = {}; core::num::traits::WrappingAdd::wrapping_add(x, y).into() }}", b + 160), "core:wrapping"),
+        // the three-crate graph (c20lib -> c20util v1; this program -> c20util v2)
+        46 => (format!("c20lib::graph::util_tag() + c20lib::graph::util_bump({a})"), "graph:through-lib"),
+        47 => (format!("c20lib::graph::pair_sum(c20lib::graph::make_pair({a})) + c20lib::graph::leaf()"), "graph:v1-types"),
+        48 => (format!("c20util::tag() + c20util::bump({a}) + c20util::only_v2()"), "graph:v2-direct"),
+        49 => (format!("{{ let p = c20util::Pair {{ a: {a}, b: {b} }}; c20util::Summable::sum(@p) + c20lib::graph::sum_any(@c20lib::graph::UtilPair {{ a: {a}, b: {b} }}) }}"), "graph:both-versions"),
+        50 => (format!("c20lib::graph::code_of(c20lib::graph::mode_of({flag})) + c20lib::graph::code_of(c20lib::graph::Mode::Fast({c}))"), "graph:reexported-enum"),
+        // visibilities (public surface)
+        51 => (format!("c20lib::vis::public_fn() + c20lib::vis::PUB_C + c20lib::vis::mixed().a + c20lib::vis::open::f()"), "vis:pub-items"),
+        52 => (format!("c20lib::vis::reexported_f() + c20lib::vis::from_g1() + c20lib::vis::g1::from_g1() + c20lib::vis::through_globs()"), "vis:pub-uses"),
+        53 => (format!("c20lib::vis::PubImplAlias::t(@{a}) + c20lib::vis::PubTrait::t(@{b}) + c20lib::vis::through_traits({c})"), "vis:pub-traits"),
+        54 => (format!("match c20lib::vis::PubEnum::B({a}) {{ c20lib::vis::PubEnum::A => 0, c20lib::vis::PubEnum::B(x) => x }}"), "vis:pub-enum"),
+        55 => (format!("{{ let t: c20lib::vis::PubAlias = {a}; c20lib::vis::aliases(t, {b}, {c}) }}"), "vis:type-alias"),
+        // feature kinds / attributes
+        56 => ("c20lib::feat::stable_fn() + c20lib::feat::hidden()".to_string(), "feat:stable"),
+        57 => (format!("c20lib::feat::unstable_fn() + c20lib::feat::deprecated_fn() + {a}"), "feat:warns"),
+        58 => (format!("{{ c20lib::feat::important(); c20lib::feat::token(); c20lib::feat::OLD + {a} }}"), "feat:must-use+deprecated-const"),
+        // generics of every kind
+        59 => (format!("c20lib::generic::arr_len(@[{a}_u16, {b}, {c}]).into() + c20lib::generic::times::<{c}>({a}).into()"), "generic:const"),
+        60 => (format!("c20lib::generic::Describe::describe(@{a}_u8) + c20lib::generic::Describe::describe(@{a}_u64)"), "generic:negative-impl"),
+        61 => (format!("{{ let w: Option<u8> = c20lib::generic::WrapU8::wrap({c}); match w {{ Option::Some(x) => x.into(), Option::None => 0 }} }}"), "generic:impl-alias"),
+        62 => (format!("{{ let f: u16 = c20lib::generic::Container::first(@array![{a}_u16]); f.into() + c20lib::generic::ArrContainer::cap().into() + c20lib::generic::PairContainer::CAP.into() }}"), "generic:trait-items"),
+        63 => (format!("match c20lib::generic::OuterImpl::go({a}) {{ Option::Some(x) => x.into(), Option::None => 0 }}"), "generic:impl-impl"),
+        64 => (format!("{{ let h = c20lib::generic::holder3({c}); let [x, _, _] = h.items; x.into() }}"), "generic:const-struct"),
+        // macros declared in the library, cfg items
+        65 => (format!("c20lib::mac::add_one!({a}) + c20lib::mac::twice_sum!({a}, {b}) + c20lib::mac::twice_sum!({c})"), "macro:lib-declared"),
+        66 => (format!("c20lib::mac::uses_own_macros({a})"), "macro:used-in-lib"),
+        67 => ("c20lib::cfgd::speed() + c20lib::cfgd::not_slow() + c20lib::cfgd::TARGET".to_string(), "cfg:items"),
+        // extern functions / types of the (cached) core library, called directly
+        68 => (format!("{{ let x: Box<felt252> = BoxTrait::new({a}); x.unbox() + core::felt252_div({b}, {c}.try_into().unwrap()) }}"), "core:extern"),
+        69 => (format!("{{ let n: NonZero<u32> = {c}; let (q, r) = core::traits::DivRem::div_rem({a}_u32, n); (q + r).into() }}"), "core:nonzero"),
+        70 => (format!("{{ let (lo, hi) = core::integer::u128_wide_mul({a}, {b}); (lo + hi).into() }}"), "core:wide-mul"),
+        71 => (format!("{{ let s = array![{a}_u8, {b}].span(); match s.get(1) {{ Option::Some(x) => (*x.unbox()).into(), Option::None => 0 }} }}"), "core:span-get"),
+        _ => (format!("{{ let x: u8 = {a}; let y: u8 = {}; core::num::traits::WrappingAdd::wrapping_add(x, y).into() }}", b % 90 + 160), "core:wrapping"),
     }
 }
 
@@ -265,36 +355,88 @@ fn gen_program(rng: &mut Rng, idx: usize) -> (String, Vec<&'static str>) {
     (s, kinds)
 }
 
+/// One function body that must be REJECTED (or warned about) because of something stored in the cache:
+/// visibility, feature kind, crate identity, cfg, generic parameters of cached items.
+fn diag_snippet(rng: &mut Rng) -> (String, &'static str) {
+    let a = rng.below(50);
+    match rng.below(30) {
+        0 => ("c20lib::vis::crate_fn()".into(), "vis:crate-fn"),
+        1 => ("c20lib::vis::private_fn()".into(), "vis:private-fn"),
+        2 => ("c20lib::vis::CRATE_C + c20lib::vis::PRIV_C".into(), "vis:consts"),
+        3 => ("{ let m = c20lib::vis::mixed(); m.b + m.c }".into(), "vis:members"),
+        4 => ("{ let s = c20lib::vis::CrateStruct { x: 1 }; s.x }".into(), "vis:crate-struct"),
+        5 => ("{ let s = c20lib::vis::PrivStruct { x: 1 }; s.x }".into(), "vis:private-struct"),
+        6 => ("{ let _e = c20lib::vis::CrateEnum::C; let _f = c20lib::vis::PrivEnum::D; 0 }".into(), "vis:enums"),
+        7 => ("c20lib::vis::open::g() + c20lib::vis::crate_mod::f()".into(), "vis:crate-mod"),
+        8 => ("c20lib::vis::closed::f()".into(), "vis:private-mod"),
+        9 => ("c20lib::vis::crate_reexport() + c20lib::vis::priv_alias()".into(), "vis:uses"),
+        10 => (format!("c20lib::vis::CrateTrait::u(@{a}) + c20lib::vis::CrateImpl::u(@{a})"), "vis:crate-trait-impl"),
+        11 => (format!("c20lib::vis::PrivTrait::v(@{a}) + c20lib::vis::PrivImpl::v(@{a})"), "vis:private-trait-impl"),
+        12 => ("{ let _a: c20lib::vis::CrateAlias = 1; let _b: c20lib::vis::PrivAlias = 2; 0 }".into(), "vis:type-aliases"),
+        13 => (format!("c20lib::vis::CrateImplAlias::u(@{a})"), "vis:impl-alias"),
+        14 => ("c20lib::vis::from_g2()".into(), "vis:crate-glob"),
+        15 => ("c20lib::vis::from_g3()".into(), "vis:private-glob"),
+        16 => ("c20lib::vis::g1_crate_only() + c20lib::vis::g1::g1_crate_only()".into(), "vis:crate-fn-through-pub-glob"),
+        17 => ("c20lib::feat::unstable_fn() + c20lib::feat::unstable_nonote()".into(), "feat:unstable"),
+        18 => ("c20lib::feat::deprecated_fn() + c20lib::feat::OLD".into(), "feat:deprecated"),
+        19 => ("c20lib::feat::internal_fn()".into(), "feat:internal"),
+        20 => ("{ let s = c20lib::feat::UnstableStruct { a: 1 }; s.a + c20lib::feat::unstable_mod::inside() }".into(), "feat:unstable-struct-mod"),
+        21 => ("{ c20lib::feat::important(); c20lib::feat::token(); let _p = c20lib::feat::Ph {}; 0 }".into(), "feat:must-use-phantom"),
+        22 => ("{ let p2 = c20util::Pair { a: 3, b: 4 }; c20lib::graph::pair_sum(p2) }".into(), "graph:mixed-versions"),
+        23 => ("c20util::deep::leaf() + c20lib::graph::only_v2()".into(), "graph:items-of-other-version"),
+        24 => ("c20lib::cfgd::only_slow()".into(), "cfg:absent-item"),
+        25 => ("c20lib::generic::small_only(1_u32) + c20lib::generic::times::<99999999999>(1).into()".into(), "generic:bounds"),
+        26 => ("{ let _d: c20lib::generic::Holder<u8, 2> = c20lib::generic::holder3(1); 0 }".into(), "generic:const-arg"),
+        27 => ("c20lib::mac::crate_only!(1) + c20lib::mac::add_one!()".into(), "macro:misuse"),
+        28 => ("c20lib::shapes::translate(1, 2, 3).x.into() + c20lib::algo::fact(true)".into(), "types:cached-signatures"),
+        _ => ("{ let s = c20lib::shapes::Shape::Square(1); s.no_such_method() + c20lib::no_such_item() }".into(), "names:cached-paths"),
+    }
+}
+
+fn gen_diag_program(rng: &mut Rng, idx: usize) -> (String, Vec<&'static str>) {
+    let mut s = String::new();
+    let n = 3 + rng.below(4) as usize;
+    let mut kinds = vec![];
+    for i in 0..n {
+        let (body, kind) = diag_snippet(rng);
+        kinds.push(kind);
+        writeln!(s, "fn d_{idx}_{i}() -> felt252 {{\n    {body}\n}}\n").unwrap();
+    }
+    writeln!(s, "fn main() -> felt252 {{\n    c20lib::feat::stable_fn()\n}}").unwrap();
+    (s, kinds)
+}
+
 fn collect_programs(work: &Path, tier: &str, rng: &mut Rng, kinds_seen: &mut BTreeMap<String, usize>) -> Vec<Prog> {
     let mut progs = vec![];
     let mut add = |name: String, text: &str, flavor: u8, origin: String| {
         let dir = work.join(&name);
         std::fs::create_dir_all(&dir).unwrap();
         std::fs::write(dir.join("lib.cairo"), text).unwrap();
-        progs.push(Prog { name, dir: dir.canonicalize().unwrap(), uses_lib: flavor == 0, origin, flavor });
+        progs.push(Prog { name, dir: dir.canonicalize().unwrap(), uses_lib: flavor == 0 || flavor == 3, origin, flavor });
     };
-    for p in cairo_files(Path::new("/verif/corpus/C20/progs")) {
+    for p in cairo_files(&corpus_dir("progs")) {
         let name = p.file_stem().unwrap().to_string_lossy().to_string();
-        add(name, &std::fs::read_to_string(&p).unwrap(), 0, p.to_string_lossy().to_string());
+        let flavor = if name.contains("old_edition") { 3 } else { 0 };
+        add(name, &std::fs::read_to_string(&p).unwrap(), flavor, p.to_string_lossy().to_string());
     }
     // dependents of the core library only: the examples of the repository
-    let mut ex: Vec<PathBuf> = cairo_files(Path::new("/repo/examples")).into_iter().filter(|p| p.file_stem().unwrap() != "lib").collect();
-    let n_ex = if tier == "thorough" { ex.len() } else { 12 };
+    let mut ex: Vec<PathBuf> = cairo_files(Path::new(&format!("{}/examples", h13::repo()))).into_iter().filter(|p| p.file_stem().unwrap() != "lib").collect();
+    let n_ex = if tier == "thorough" { ex.len() } else if tier == "probe" { 0 } else { 12 };
     for _ in 0..n_ex.min(ex.len()) {
         let i = rng.below(ex.len() as u64) as usize;
         let p = ex.swap_remove(i);
         let name = format!("ex_{}", p.file_stem().unwrap().to_string_lossy());
         add(name, &std::fs::read_to_string(&p).unwrap(), 1, p.to_string_lossy().to_string());
     }
-    let mut bugs: Vec<PathBuf> = cairo_files(Path::new("/repo/tests/bug_samples")).into_iter().filter(|p| p.file_stem().unwrap() != "lib").collect();
-    let n_bug = if tier == "thorough" { bugs.len() } else { 24 };
+    let mut bugs: Vec<PathBuf> = cairo_files(Path::new(&format!("{}/tests/bug_samples", h13::repo()))).into_iter().filter(|p| p.file_stem().unwrap() != "lib").collect();
+    let n_bug = if tier == "thorough" { bugs.len() } else if tier == "probe" { 0 } else { 24 };
     for _ in 0..n_bug.min(bugs.len()) {
         let i = rng.below(bugs.len() as u64) as usize;
         let p = bugs.swap_remove(i);
         let name = format!("bug_{}", p.file_stem().unwrap().to_string_lossy());
         add(name, &std::fs::read_to_string(&p).unwrap(), 2, p.to_string_lossy().to_string());
     }
-    let n_gen = if tier == "thorough" { 400 } else { 60 };
+    let n_gen = if tier == "thorough" { 400 } else if tier == "probe" { 0 } else { 60 };
     let n_gen = std::env::var("H20_GENERATED").ok().and_then(|s| s.parse().ok()).unwrap_or(n_gen);
     for i in 0..n_gen {
         let (text, kinds) = gen_program(rng, i);
@@ -302,6 +444,15 @@ fn collect_programs(work: &Path, tier: &str, rng: &mut Rng, kinds_seen: &mut BTr
             *kinds_seen.entry(k.to_string()).or_insert(0) += 1;
         }
         add(format!("gen_{i:03}"), &text, 0, format!("generated #{i} (VERIF_SEED)"));
+    }
+    // programs that must be rejected / warned about because of what the cache stores
+    let n_diag = if tier == "thorough" { 120 } else if tier == "probe" { 3 } else { 24 };
+    for i in 0..n_diag {
+        let (text, kinds) = gen_diag_program(rng, i);
+        for k in kinds {
+            *kinds_seen.entry(format!("diag/{k}")).or_insert(0) += 1;
+        }
+        add(format!("gdiag_{i:03}"), &text, if i % 6 == 5 { 3 } else { 0 }, format!("generated diagnostics program #{i} (VERIF_SEED)"));
     }
     progs
 }
@@ -315,7 +466,7 @@ fn collect_programs(work: &Path, tier: &str, rng: &mut Rng, kinds_seen: &mut BTr
 /// dependents must now compile differently. Returns how many programs changed.
 fn sensitivity_control(opt: &Optimizations, progs: &[Prog], source_outs: &[Out], work: &Path) -> Result<(usize, usize), String> {
     let alt = work.join("altlib");
-    h13::copy_dir(Path::new(LIB_DIR), &alt).map_err(|e| e.to_string())?;
+    h13::copy_dir(&corpus_dir("lib/src"), &alt).map_err(|e| e.to_string())?;
     let lp = alt.join("lib.cairo");
     let t = std::fs::read_to_string(&lp).map_err(|e| e.to_string())?;
     let t2 = t.replace("x * SCALE + 0", "x * SCALE + 1").replace("    x + 1\n", "    x + 2\n").replace("(x, x)", "(x, x,).clone()");
@@ -329,8 +480,7 @@ fn sensitivity_control(opt: &Optimizations, progs: &[Prog], source_outs: &[Out],
     std::fs::write(&sp, st2).map_err(|e| e.to_string())?;
     // blob of the altered library
     let blob = {
-        let mut db = build_db(Some(opt.clone()));
-        let lib = add_crate(&mut db, LIB_NAME, &alt, false, 0);
+        let (db, lib, _) = open_db_with_lib(opt, &[], &[], &alt);
         let r = vcommon::catch(AssertUnwindSafe(|| {
             let id = CrateInput::into_crate_ids(&db, vec![lib.clone()])[0];
             generate_crate_cache(&db, id).map_err(|e| format!("altered {LIB_NAME}: {e}"))
@@ -340,8 +490,7 @@ fn sensitivity_control(opt: &Optimizations, progs: &[Prog], source_outs: &[Out],
             Err(e) => return Err(format!("panic in generate_crate_cache (altered library): {e}")),
         }
     };
-    let lib_input = CrateInput::Real { name: LIB_NAME.to_string(), discriminator: None };
-    let (db, _, inputs) = open_db(opt, progs, &[(lib_input, blob)]);
+    let (db, _, inputs) = open_db(opt, progs, &[(lib_input(), blob)]);
     let mut changed = 0;
     let mut users = 0;
     for (i, p) in progs.iter().enumerate() {
@@ -357,13 +506,26 @@ fn sensitivity_control(opt: &Optimizations, progs: &[Prog], source_outs: &[Out],
     Ok((changed, users))
 }
 
-fn make_blobs(opt: &Optimizations) -> Result<(Vec<u8>, Vec<u8>), String> {
+#[derive(Clone, Default, PartialEq)]
+struct Blobs {
+    core: Vec<u8>,
+    lib: Vec<u8>,
+    util1: Vec<u8>,
+    util2: Vec<u8>,
+}
+
+fn make_blobs(opt: &Optimizations) -> Result<Blobs, String> {
     let (db, lib, _) = open_db(opt, &[], &[]);
     let r = vcommon::catch(AssertUnwindSafe(|| {
         let core = generate_crate_cache(&db, CrateId::core(&db)).map_err(|e| format!("corelib: {e}"))?;
-        let lib_id = CrateInput::into_crate_ids(&db, vec![lib.clone()])[0];
-        let libb = generate_crate_cache(&db, lib_id).map_err(|e| format!("{LIB_NAME}: {e}"))?;
-        Ok::<_, String>((core, libb))
+        let one = |input: CrateInput, what: &str| {
+            let id = CrateInput::into_crate_ids(&db, vec![input])[0];
+            generate_crate_cache(&db, id).map_err(|e| format!("{what}: {e}"))
+        };
+        let libb = one(lib.clone(), LIB_NAME)?;
+        let util1 = one(util_input(false), "c20util v1")?;
+        let util2 = one(util_input(true), "c20util v2")?;
+        Ok::<_, String>(Blobs { core, lib: libb, util1, util2 })
     }));
     match r {
         Ok(x) => x,
@@ -373,16 +535,29 @@ fn make_blobs(opt: &Optimizations) -> Result<(Vec<u8>, Vec<u8>), String> {
 
 #[derive(Clone, Copy, PartialEq, Eq, Debug)]
 enum CachedSet {
+    /// corelib, c20lib and both c20util crates
     Both,
     CoreOnly,
+    /// c20lib only (its dependency c20util v1 is compiled from source)
     LibOnly,
+    /// c20lib and both c20util crates, corelib from source
+    LibUtil,
 }
 impl CachedSet {
     fn name(&self) -> &'static str {
         match self {
-            CachedSet::Both => "corelib+c20lib",
+            CachedSet::Both => "corelib+c20lib+c20util",
             CachedSet::CoreOnly => "corelib",
             CachedSet::LibOnly => "c20lib",
+            CachedSet::LibUtil => "c20lib+c20util",
+        }
+    }
+    fn parse(s: Option<&str>) -> CachedSet {
+        match s {
+            Some("corelib") => CachedSet::CoreOnly,
+            Some("c20lib") => CachedSet::LibOnly,
+            Some("c20lib+c20util") => CachedSet::LibUtil,
+            _ => CachedSet::Both,
         }
     }
 }
@@ -396,7 +571,7 @@ fn run_job(
     cfgs: &[(&'static str, Optimizations)],
     job: &Job,
     progs: &[Prog],
-    blobs: &(Vec<u8>, Vec<u8>),
+    blobs: &Blobs,
     source_outs: &[Out],
 ) -> (Vec<Value>, usize) {
     let (cname, opt) = &cfgs[job.cfg];
@@ -404,13 +579,16 @@ fn run_job(
     let probe = build_db(Some(opt.clone()));
     let core = core_input(&probe);
     drop(probe);
-    let lib_input = CrateInput::Real { name: LIB_NAME.to_string(), discriminator: None };
     let mut cached = vec![];
-    if job.set != CachedSet::LibOnly {
-        cached.push((core, blobs.0.clone()));
+    if matches!(job.set, CachedSet::Both | CachedSet::CoreOnly) {
+        cached.push((core, blobs.core.clone()));
     }
     if job.set != CachedSet::CoreOnly {
-        cached.push((lib_input, blobs.1.clone()));
+        cached.push((lib_input(), blobs.lib.clone()));
+    }
+    if matches!(job.set, CachedSet::Both | CachedSet::LibUtil) {
+        cached.push((util_input(false), blobs.util1.clone()));
+        cached.push((util_input(true), blobs.util2.clone()));
     }
     let (db, _, inputs) = open_db(opt, progs, &cached);
     let mut fails = vec![];
@@ -446,6 +624,24 @@ fn main() {
     if args.len() >= 3 && args[1] == "replay" {
         return replay(&args[2]);
     }
+    if args.len() >= 2 && args[1] == "probe" {
+        // debugging aid: diagnostics of the library crates and of the corpus programs, from source
+        let work = PathBuf::from(format!("/tmp/C20/probe-{}", std::process::id()));
+        std::fs::create_dir_all(&work).unwrap();
+        let mut rng = Rng::from_env();
+        let mut kinds = BTreeMap::new();
+        let progs: Vec<Prog> = collect_programs(&work, "probe", &mut rng, &mut kinds);
+        let (db, lib, inputs) = open_db(&configs()[0].1, &progs, &[]);
+        for (n, i) in [("c20util v1", util_input(false)), ("c20util v2", util_input(true)), ("c20lib", lib)] {
+            println!("===== {n}\n{}", diagnostics_text(&db, &[i]));
+        }
+        for (p, i) in progs.iter().zip(inputs.iter()) {
+            let o = observe(&db, i);
+            println!("===== {} ({} sierra lines)\n{}", p.name, o.sierra.lines().count(), o.diag);
+        }
+        let _ = std::fs::remove_dir_all(&work);
+        return;
+    }
     if args.len() < 3 {
         eprintln!("usage: h20 <out_dir> <tier> | h20 shape <file.v> | h20 replay <replay.json>");
         std::process::exit(2);
@@ -458,7 +654,7 @@ fn main() {
 
     // ---------------- translator ----------------
     let (shape_text, shape_stats) = shape::translate();
-    let shape_path = std::env::var("H20_SHAPE_OUT").unwrap_or_else(|_| "/verif/coq/GenC20/Shape.v".to_string());
+    let shape_path = std::env::var("H20_SHAPE_OUT").unwrap_or_else(|_| format!("{}/coq/GenC20/Shape.v", h13::verif_root()));
     let changed = shape::write_if_changed(&shape_path, &shape_text);
     summary.insert("shape".into(), shape_stats);
     summary.insert("shape_file_rewritten".into(), json!(changed));
@@ -480,13 +676,14 @@ fn main() {
             Ok(b) => b,
             Err(e) => {
                 failures.push(json!({"why": format!("generate_crate_cache failed: {e}"), "program": "-", "config": cfgs[0].0}));
-                (vec![], vec![])
+                Blobs::default()
             }
         };
-        summary.insert("blob_core_bytes".into(), json!(blobs.0.len()));
-        summary.insert("blob_lib_bytes".into(), json!(blobs.1.len()));
+        summary.insert("blob_core_bytes".into(), json!(blobs.core.len()));
+        summary.insert("blob_lib_bytes".into(), json!(blobs.lib.len()));
+        summary.insert("blob_util_bytes".into(), json!([blobs.util1.len(), blobs.util2.len()]));
         summary.insert("blob_seconds".into(), json!(tb.elapsed().as_secs_f64()));
-        if !blobs.0.is_empty() {
+        if !blobs.core.is_empty() {
             let mut jobs: Vec<Job> = vec![];
             for c in 0..cfgs.len() {
                 jobs.push(Job { cfg: c, set: CachedSet::Both });
@@ -495,11 +692,13 @@ fn main() {
                 for c in 0..cfgs.len() {
                     jobs.push(Job { cfg: c, set: CachedSet::CoreOnly });
                     jobs.push(Job { cfg: c, set: CachedSet::LibOnly });
+                    jobs.push(Job { cfg: c, set: CachedSet::LibUtil });
                 }
             } else {
                 let c = (rng.below(cfgs.len() as u64)) as usize;
                 jobs.push(Job { cfg: c, set: CachedSet::CoreOnly });
                 jobs.push(Job { cfg: (c + 1) % cfgs.len(), set: CachedSet::LibOnly });
+                jobs.push(Job { cfg: (c + 2) % cfgs.len(), set: CachedSet::LibUtil });
             }
             // from-source outputs, one database per configuration
             let source: Mutex<BTreeMap<usize, Vec<Out>>> = Mutex::new(BTreeMap::new());
@@ -581,7 +780,7 @@ fn main() {
                 for c in 1..cfgs.len() {
                     match make_blobs(&cfgs[c].1) {
                         Ok(b) => {
-                            summary.insert(format!("blob_identical_{}", cfgs[c].0), json!(b.0 == blobs.0 && b.1 == blobs.1));
+                            summary.insert(format!("blob_identical_{}", cfgs[c].0), json!(b == blobs));
                         }
                         Err(e) => failures.push(json!({"why": format!("generate_crate_cache failed: {e}"), "program": "-", "config": cfgs[c].0})),
                     }
@@ -613,11 +812,7 @@ fn replay(path: &str) {
     let prog = Prog { name: v["program"].as_str().unwrap_or("prog").to_string(), dir: dir.canonicalize().unwrap(), uses_lib: true, origin: "replay".into(), flavor: v["flavor"].as_u64().unwrap_or(0) as u8 };
     let cfgs = configs();
     let c = cfgs.iter().position(|c| Some(c.0) == v["config"].as_str()).unwrap_or(0);
-    let set = match v["cached"].as_str() {
-        Some("corelib") => CachedSet::CoreOnly,
-        Some("c20lib") => CachedSet::LibOnly,
-        _ => CachedSet::Both,
-    };
+    let set = CachedSet::parse(v["cached"].as_str());
     let blobs = make_blobs(&cfgs[c].1).expect("blobs");
     let progs = vec![prog];
     let (db, _, inputs) = open_db(&cfgs[c].1, &progs, &[]);
